@@ -12,8 +12,8 @@
    `map_login cfg` = the lc_username / uc_username / strip_domain mapping. *)
 From Coq Require Import List ZArith NArith Bool String.
 Import ListNotations.
-Require Import RV.Lib.PyStr RV.Model.LoginCache.
-Require Import RV.Proofs.LoginCacheDict RV.Proofs.LoginCacheSweep RV.Proofs.LoginCacheSound RV.Proofs.LoginCacheIndep RV.Proofs.C17Final.
+Require Import RV.Lib.PyStr RV.Model.LoginCache RV.Model.LoginCacheConc.
+Require Import RV.Proofs.LoginCacheDict RV.Proofs.LoginCacheSweep RV.Proofs.LoginCacheSound RV.Proofs.LoginCacheIndep RV.Proofs.LoginCacheConcProofs RV.Proofs.C17Final.
 Require RV.Gen.LoginMapGen.
 Open Scope Z_scope.
 
@@ -160,6 +160,52 @@ Theorem C17_digest_injective_under_one_login : forall l p p' s s',
   cache_digest l p s = cache_digest l p' s' -> s = s' /\ p = p'.
 Proof. exact cache_digest_same_login. Qed.
 Print Assumptions C17_digest_injective_under_one_login.
+
+(* ------------------------------------------------------------------------------------------------------------
+   Concurrency (several requests inside login on the one shared auth object).  Step model: Model/LoginCacheConc.v --
+   login cut at its accesses to the shared dictionaries, each step one `with self._lock:` block or one single
+   d.get(k) outside the lock; `pool_run sched` lets the threads step in ANY order `sched`.  What makes the steps
+   atomic is the lock discipline, checked on the regenerated access table (Proofs/C17Lock.v, built by the check). *)
+
+(* one thread alone is exactly the sequential model *)
+Theorem C17_thread_alone_is_login : forall cfg bk now c l0 pw,
+  c_cache cfg = true -> NoDup (map fst (failed c)) ->
+  let r := login_body Vfix cfg bk now c l0 pw in
+  trun true cfg bk (mkReq (map_login cfg l0) pw now) 6 TSweep c = (TDone (r_out r), r_cache r).
+Proof. exact thread_alone_is_login. Qed.
+Print Assumptions C17_thread_alone_is_login.
+
+(* EVERY schedule, ANY number of threads, starting from any cache that satisfies the invariant of the sequential
+   proofs (e.g. after any history): the invariant still holds, and every thread that has finished returned -- it did
+   not raise -- an answer justified by the back-end: its present answer, or a success within the success lifetime, or
+   a rejection that is within the failure lifetime or was stamped by one of the concurrently running logins. *)
+Theorem C17_all_schedules_sound :
+  forall (B : Type) (backend : B -> pystr -> pystr -> pystr) (cfg : config) (M : list (Z * B)) (b0 : B) (stamps : list Z),
+    (forall t, In t stamps -> In (t, b0) M) ->
+    forall (qs : list treq) (sched : list nat) (c : cache) p' c',
+      cinv backend cfg M c -> (forall q, In q qs -> In (q_now q) stamps) ->
+      pool_run true cfg (backend b0) sched (start qs) c = (p', c') ->
+      cinv backend cfg M c' /\ forall q o, In (q, TDone o) p' -> cgood backend cfg M b0 stamps q o.
+Proof. exact @all_schedules_sound. Qed.
+Print Assumptions C17_all_schedules_sound.
+
+Theorem C17_all_schedules_never_raise :
+  forall (B : Type) (backend : B -> pystr -> pystr -> pystr) (cfg : config) (M : list (Z * B)) (b0 : B) (stamps : list Z),
+    (forall t, In t stamps -> In (t, b0) M) ->
+    forall (qs : list treq) (sched : list nat) (c : cache) p' c' q e,
+      cinv backend cfg M c -> (forall q, In q qs -> In (q_now q) stamps) ->
+      pool_run true cfg (backend b0) sched (start qs) c = (p', c') ->
+      ~ In (q, TDone (ORaise e)) p'.
+Proof. exact @all_schedules_never_raise. Qed.
+Print Assumptions C17_all_schedules_never_raise.
+
+(* the code before notes/fixes/C17-F13-cache-races.patch (unconditional `del self._cache_successful[login]` outside
+   the lock): two requests of the same user right after the success entry expired, one schedule, KeyError *)
+Theorem C17_pinned_concurrent_refuted :
+  exists sched, In (mkReq (str "alice") (str "pa") (T0c + 16 * S9c), TDone (ORaise KeyError))
+                   (fst (pool_run false cfgc bk_alice sched (start two_alices) alice_entry)).
+Proof. exact unguarded_delete_raises. Qed.
+Print Assumptions C17_pinned_concurrent_refuted.
 
 (* Tie T: the mapping prefix translated from the current source equals the model's map_login. *)
 Theorem C17_login_map_tie :
